@@ -9,28 +9,41 @@
      script_roundtrip: parse (serialize cmds) = cmds up to the names of definition parameters;
      hr_roundtrip: HRParser (hr_print t) has the type and meaning of t and serialises to the same
        text up to the grouping of n-ary operators.
-   Proved: the round trip for EVERY term of two explicit families (complete evaluation in Coq:
-   16245 Core/linear-arithmetic terms with up to two operator levels; one term per operator of
-   every theory with all constant notations) for both printers; the array-value case on its
-   witness; hr_roundtrip_partial over an abstract parser whose round-trip hypothesis is what
-   harness/c09.py tests.  The general induction over the reader's stack machine, the script round
-   trip and the HR parser are carried by correspondence + oracle (harness/c09.py). *)
+   Proved: BY INDUCTION on the term (no bound on size or depth), for both printers, on the fragment
+   [rt] below (C09_roundtrip_tree_partial, C09_roundtrip_dag_partial); for EVERY term of two
+   explicit families (complete evaluation in Coq: 16245 Core/linear-arithmetic terms with up to two
+   operator levels; one term per operator of every theory with all constant notations) for both
+   printers; the array-value case on its witness; hr_roundtrip_partial over an abstract parser whose
+   round-trip hypothesis is what harness/c09.py tests.  The script round trip and the HR parser are
+   carried by correspondence + oracle (harness/c09.py). *)
 From Coq Require Import List ZArith Bool String Ascii.
 From PySMT.core Require Import Syntax Sem SmtStd.
 From PySMT.models Require Import TypeChecker Ctors SmtLex SmtParser SmtPrinter RoundTrip HrPrinter.
-From PySMT.proofs Require Import RoundTrip_proofs Reader_proofs Numeral_proofs RoundTrip_ind.
+From PySMT.proofs Require Import RoundTrip_proofs Reader_proofs Numeral_proofs RoundTrip_ind RoundTrip_dag.
 Import ListNotations.
 Open Scope string_scope.
 
-(* ---- the round trip through the tree printer BY INDUCTION on the term (no bound on size or depth).
+(* ---- the round trip through the tree printer AND the DAG printer BY INDUCTION on the term (no bound
+   on size or depth).
    1. the reader's stack machine does what the recursive reading [elab] does, for every
       s-expression built from atoms, applications of table operators / function names,
-      quantifiers (forall / exists with any binder list) and applications of an indexed identifier
-      ((_ extract i j) x), whatever the stack and the state;
+      quantifiers (forall / exists with any binder list), applications of an indexed identifier
+      ((_ extract i j) x) and let with any number of bindings (parallel let with the early-binding
+      extension of parser.py), whatever the stack and the state (by induction on the size of the
+      s-expression; e: the iterations a let reserves for the nested calls reading its bound terms);
    2. [elab] of the print-out of t returns t when every node of t satisfies the local condition
       [node_ok] (one node and its arguments: the parser's constructor for the printed head rebuilds
       the node; a symbol is declared with its sort; an Int constant's token is not a declared name);
-   3. hence read_back print_tree t = Ok (ITerm t), when moreover no printed token needs quoting.
+      node_reads is the step for ONE node over arbitrary argument texts (used by both printers);
+   3. hence read_back print_tree t = Ok (ITerm t), when moreover no printed token needs quoting;
+   4. DAG printer: a single-binding let over a printer name .def_k is read as its body with the name
+      bound (C09_let_reads; the state invariant invR says that such a name has no binding but the
+      one in scope, so the let finds and leaves an empty stack); the walk of the DAG printer keeps
+      the invariant that every bound text is read as its term under the lets before it and every
+      memoised text under the lets so far and all later ones (RoundTrip_dag.visit_ok); hence
+      read_back print_dag t = Ok (ITerm t) for the same fragment, sharing included
+      (C09_roundtrip_dag_partial; side condition: no declared SORT is named .def_k - symbols named
+      .def_k are avoided by the printer and covered).
    The local condition follows from typing for and, or, not, =>, <-> / = (Iff, Equals), ite, +, *, -,
    <=, <, uninterpreted functions, the non-indexed bit-vector operators and the indexed ones (extract,
    rotate_left / rotate_right, zero_extend / sign_extend; side condition: int() reads str(k) back as k,
@@ -41,24 +54,66 @@ Open Scope string_scope.
    C09_roundtrip_tree_constants_example).
    Not yet in the inductive ROUND TRIP (still covered by the bounded families below and by the
    correspondence): quantifiers (the machine lemma covers them; the round trip needs the binder scan
-   on printed sorts and a stack invariant of the cache), String constants, array values,
-   names that need quoting. *)
+   on printed sorts and a stack invariant of the cache; the DAG printer prints a quantifier body with
+   a fresh sub-printer), String constants, array values, names that need quoting. *)
 Theorem C09_machine_simple : forall x, simpleb x = true ->
   forall fuel' stk s i s' rest,
     elab x s = ROk i s' -> toks s = (flatten x ++ rest)%list ->
-    get_expr (cost x + fuel') stk s = after fuel' stk i s' /\ toks s' = rest.
+    exists e, get_expr (cost x + fuel') stk s = after (fuel' + e) stk i s' /\ toks s' = rest.
 Proof. exact machine_simple. Qed.
 Print Assumptions C09_machine_simple.
 
+Theorem C09_node_reads : forall D o args xs, node_ok D o args ->
+  Forall2 (reads_as D) xs args -> Forall (fun x => simpleb x = true) xs ->
+  reads_as D (term_sexp (T o args) xs) (T o args).
+Proof. exact node_reads. Qed.
+
 Theorem C09_elab_print : forall D t, rt D t ->
-  forall s rest, inv D s -> toks s = (flatten (print_tree t) ++ rest)%list ->
-    exists s', elab (print_tree t) s = ROk (ITerm t) s' /\ inv D s' /\ toks s' = rest.
+  forall s rest, invR D s -> toks s = (flatten (print_tree t) ++ rest)%list ->
+    exists s', elab (print_tree t) s = ROk (ITerm t) s' /\ invR D s' /\ toks s' = rest.
 Proof. exact elab_print. Qed.
 
 Theorem C09_roundtrip_tree_partial : forall t,
   rt (D_of t) t -> all_plain (print_tree t) = true -> read_back print_tree t = Ok (ITerm t).
 Proof. exact roundtrip_tree_partial. Qed.
 Print Assumptions C09_roundtrip_tree_partial.
+
+(* the DAG printer *)
+Theorem C09_let_reads : forall D n e tau body t,
+  reserved n -> SmtParser.alookup n D = None -> simpleb e = true -> simpleb body = true ->
+  reads_as D e tau -> reads_as ((n, ITerm tau) :: D) body t ->
+  reads_as D (let1 n e body) t.
+Proof. exact let_reads. Qed.
+
+Theorem C09_roundtrip_dag_partial : forall t,
+  rt (D_of t) t -> all_plain (print_dag t) = true -> dag_names_ok t ->
+  read_back print_dag t = Ok (ITerm t).
+Proof. exact roundtrip_dag_partial. Qed.
+Print Assumptions C09_roundtrip_dag_partial.
+
+Theorem C09_dag_names_ok_nosorts : forall t,
+  flat_map sort_binding (Oracles.get_types t) = nil -> dag_names_ok t.
+Proof. exact dag_names_ok_nosorts. Qed.
+
+(* a term whose inner node x + y occurs three times: written once, read back as the same term *)
+Theorem C09_roundtrip_dag_shared_example :
+  print_dag ex_shared =
+    let1 ".def_0" (SList [Atom "+"; Atom "x"; Atom "y"])
+    (let1 ".def_1" (SList [Atom "*"; Atom "2"; Atom ".def_0"])
+    (let1 ".def_2" (SList [Atom "<="; Atom ".def_1"; Atom ".def_0"])
+    (let1 ".def_3" (SList [Atom "not"; Atom ".def_2"])
+    (let1 ".def_4" (SList [Atom "<="; Atom ".def_0"; Atom "7"])
+    (let1 ".def_5" (SList [Atom "and"; Atom ".def_4"; Atom ".def_3"])
+    (Atom ".def_5")))))) /\
+  read_back print_dag ex_shared = Ok (ITerm ex_shared).
+Proof. split; [exact ex_shared_text | exact ex_shared_roundtrip]. Qed.
+
+Theorem C09_roundtrip_dag_partial_hypotheses_satisfiable :
+  rt (D_of ex_term) ex_term /\ all_plain (print_dag ex_term) = true /\ dag_names_ok ex_term.
+Proof.
+  split; [exact (proj1 ex_term_rt)|]. split; [vm_compute; reflexivity|].
+  apply dag_names_ok_nosorts. vm_compute. reflexivity.
+Qed.
 
 Theorem C09_roundtrip_tree_indexed_example : read_back print_tree ex_bv = Ok (ITerm ex_bv).
 Proof. exact ex_bv_roundtrip. Qed.
